@@ -12,7 +12,7 @@ done | xargs -P 3 -I{} sh -c '
   props="C01 C02 C03 C04 C05 C08 C09 C10 C11 C12 C13 C14 C16 C17 C18 C20"
   case $t in C06|C07|C15|C19|C20) props="$props C06 C07 C15 C19";; esac
   # fourth-round changes (ids ending in E/F) were asked to hide in state shared between calls: C19 is always run for them
-  case $id in *E|*F) props="$props C19";; esac
+  case $id in *E|*F|*G|*H) props="$props C19";; esac
   if grep -q "^diff --git a/cmd/" /verif/seeded/$id/patch.diff; then props="$props C06 C07 C15"; fi
   props="$props $t"
   props=$(echo $props | tr " " "\n" | sort -u | tr "\n" " ")
